@@ -183,6 +183,10 @@ type refTrigger struct {
 	// own, the same pattern ignoring case (evidence: boundaries at which only the case kept a
 	// sensitive pattern from matching)
 	reFold *regexp.Regexp
+	// reLowSrc is NOT part of the oracle: for an insensitive callback whose pattern source has
+	// capitals (upper-case escape classes such as \S \D \W \B \A), the pattern compiled from the
+	// lower-cased source, if that compiles (evidence: boundaries at which such a class decided)
+	reLowSrc *regexp.Regexp
 }
 
 func mkTrigger(cb CB) (refTrigger, error) {
@@ -195,6 +199,9 @@ func mkTrigger(cb CB) (refTrigger, error) {
 		t.re = re
 		if cb.Sensitive && !strings.HasPrefix(cb.Re, "(?i") {
 			t.reFold, _ = regexp.Compile("(?i)" + cb.Re)
+		}
+		if !cb.Sensitive && strings.ToLower(cb.Re) != cb.Re {
+			t.reLowSrc, _ = regexp.Compile(strings.ToLower(cb.Re))
 		}
 	}
 	return t, nil
@@ -524,6 +531,9 @@ func runOnce(d Desc) (mon.Result, bool) {
 	j := &judge{d: &d, trigs: trigs, tCase: tCase, fired: map[int]int{}, failedOnce: map[int]bool{},
 		obs: j0obs, tags: map[string]bool{}}
 	for i := range d.CBs {
+		if !d.CBs[i].Sensitive && strings.ToLower(d.CBs[i].Re) != d.CBs[i].Re {
+			j.obs["insensitive_patterns_with_capitals_in_their_source"]++
+		}
 		if trigs[i].reFold != nil {
 			j.obs["sensitive_pattern_callbacks_without_own_case_flag"]++
 		}
@@ -662,6 +672,9 @@ type evalRes struct {
 	edgeSpaceDecided bool
 	// evidence only: a case-sensitive pattern failed to match only because of the case
 	sensPatternCaseDecided bool
+	// evidence only: an upper-case escape class of an insensitive pattern decided (the pattern
+	// compiled from the lower-cased source gives the other answer)
+	upperClassDecided bool
 }
 
 func (j *judge) eval(a, k int) evalRes {
@@ -676,6 +689,11 @@ func (j *judge) eval(a, k int) evalRes {
 			}
 			if t.positive(out) && t.excluded(out) && !x {
 				r.vetoNeedsMapping = true
+			}
+		}
+		if t.reLowSrc != nil {
+			if lo := strings.ToLower(out); t.re.MatchString(lo) != t.reLowSrc.MatchString(lo) {
+				r.upperClassDecided = true
 			}
 		}
 		if t.reFold != nil && !t.re.MatchString(out) && t.reFold.MatchString(out) && !t.holds(out) {
@@ -732,6 +750,11 @@ func (j *judge) noteEval(r evalRes) {
 	}
 	if r.splitLetter {
 		j.obs["boundaries_inside_a_multibyte_letter"]++
+	}
+	if r.upperClassDecided {
+		j.obs["boundaries_where_an_upper_case_escape_class_of_an_insensitive_pattern_decided"]++
+		j.tags["upper-case-escape-class-decided-a-trigger"] = true
+		j.nontrivial = true
 	}
 	if r.sensPatternCaseDecided {
 		j.obs["boundaries_where_only_the_case_kept_a_sensitive_pattern_from_matching"]++
@@ -935,6 +958,10 @@ func (j *judge) judge(haveResp bool, result string, opErr error) mon.Result {
 		}
 		fired[f.Idx]++
 		j.noteFired(cb, e2 == e && fi > 0)
+		if !cb.Sensitive && strings.ToLower(cb.Re) != cb.Re {
+			j.obs["firings_of_insensitive_patterns_with_capitals_in_their_source"]++
+			j.tags["fired:insensitive-pattern-with-upper-case-escape-class"] = true
+		}
 		if edgeSpace(cb.Contains) || edgeSpace(cb.NotContains) {
 			j.obs["firings_of_literals_with_edge_whitespace"]++
 			j.tags["fired:literal-with-edge-whitespace"] = true
